@@ -307,21 +307,26 @@ def run_case(case):
     cmds = list(e.hlcsg.generate_high_level_commands_for_sched_op(sched_ops[-1], sched))      # REAL
     t = case["id"]
     events = []
-    # header: what the scheduler-side code decided (stripe heights, stripe inputs, buffer heights)
+    # header: the operator geometry (from the case) and what the scheduler-side code decided
     hdr = {"t": t, "e": "Hdr", "n": b["n"], "ops": []}
     for i, (so, m) in enumerate(zip(sched_ops, metas)):
         o = m["o"]
         c = sched.cost_map[so]
         buf = b["buffers"].get(so)
         tin = b["tens"][i]
+        ro = o["roff"] or [0, 0, 0]
+        rs = o["rshape"] or m["ifm_t"]
+        wo = o["woff"] or [0, 0, 0]
+        i2 = _ints(so.parent_ps.ifm_shapes[1].as_list())[1:] if o["cls"] == "ew2" else []
         hdr["ops"].append({
-            "I": m["ifm_t"][0], "O": m["wr"][0], "k": o["kh"], "d": o["dh"], "s": o["sh"], "pt": o["pad"],
-            "ep": [o["ep"][0], o["ep"][2]], "up": UPS[o["up"]], "h": int(c.stripe.height),
-            "hin": int(c.stripe_input.height), "buf": int(buf.height) if buf is not None else 0,
-            "store": int(tin.storage_shape[-3]) if len(tin.storage_shape) >= 3 else 0})
+            "cls": o["cls"], "sp": o["roff"] is not None, "up": UPS[o["up"]], "pt": o["pad"], "i2": i2,
+            "h": int(c.stripe.height), "hin": int(c.stripe_input.height), "buf": int(buf.height) if buf is not None else 0,
+            "store": int(tin.storage_shape[-3]) if len(tin.storage_shape) >= 3 else 0,
+            "ax": {"H": _axis(m, 0, o["kh"], o["dh"], o["sh"], (o["ep"][0], o["ep"][2]), ro, rs, wo),
+                   "W": _axis(m, 1, o["kw"], o["dw"], o["sw"], (o["ep"][1], o["ep"][3]), ro, rs, wo),
+                   "C": _axis(m, 2, 1, 1, 1, (0, 0), ro, rs, wo)}})
     events.append(hdr)
     seq = 0
-    per_op_count = {}
     for cmd in cmds:
         if not cmd.is_npu_pass_command():
             continue
@@ -329,13 +334,12 @@ def run_case(case):
         m = metas[i]
         o, op = m["o"], m["op"]
         ib, ob = cmd.ifm_box, cmd.ofm_box
-        is_ew = o["cls"] in ("ew1", "ew2")
-        if is_ew:
-            top = left = bottom = right = 0
+        if o["cls"] in ("ew1", "ew2"):
+            top = left = bottom = right = 0          # no padding registers on elementwise operations
         else:
             p = e.hl2npu.create_padding(cmd, op, None)                  # REAL
             top, left, bottom, right = int(p.top), int(p.left), int(p.bottom), int(p.right)
-        tiles_r = tiles_w = None
+        tiles_r = tiles_w = []
         if b["n"] > 1:
             if i > 0:
                 fm = e.hl2npu.create_feature_map(cmd.ifm_tensor, ib, e.arch, cmd.ps.ifm_shapes[0], op.tile_base_offsets_ifm[0])   # REAL
@@ -345,31 +349,23 @@ def run_case(case):
                 tiles_w = _tiles(fm, cmd.ofm_tensor)
         isc, iec = _ints(ib.start_coord), _ints(ib.end_coord)
         osc, oec = _ints(ob.start_coord), _ints(ob.end_coord)
-        ro = o["roff"] or [0, 0, 0]
-        rs = o["rshape"] or m["ifm_t"]
-        wo = o["woff"] or [0, 0, 0]
-        ev = {"t": t, "e": "S", "q": seq, "op": i, "cls": o["cls"], "sp": o["roff"] is not None,
-              "first": bool(cmd.is_first_h_stripe), "last": bool(cmd.is_last_h_stripe),
-              "up": UPS[o["up"]], "pt": o["pad"], "bc": o["bc"] or "",
-              "ax": {
-                  "H": _axis(m, 0, o["kh"], o["dh"], o["sh"], (o["ep"][0], o["ep"][2]), ro, rs, wo, osc[1], oec[1], isc[1], iec[1], top, bottom),
-                  "W": _axis(m, 1, o["kw"], o["dw"], o["sw"], (o["ep"][1], o["ep"][3]), ro, rs, wo, osc[2], oec[2], isc[2], iec[2], left, right),
-                  "C": _axis(m, 2, 1, 1, 1, (0, 0), ro, rs, wo, osc[3], oec[3], isc[3], iec[3], 0, 0)},
-              "rd": tiles_r or [], "wr": tiles_w or []}
+        ev = {"t": t, "e": "S", "q": seq, "op": i, "first": bool(cmd.is_first_h_stripe), "last": bool(cmd.is_last_h_stripe),
+              "H": [osc[1], oec[1], isc[1], iec[1], top, bottom],
+              "W": [osc[2], oec[2], isc[2], iec[2], left, right],
+              "C": [osc[3], oec[3], isc[3], iec[3], 0, 0],
+              "b2": [], "rd": tiles_r, "wr": tiles_w}
         if o["cls"] == "ew2":
-            ib2 = cmd.ifm2_box
-            ev["ifm2"] = {"c": _ints(ib2.start_coord)[1:], "e": _ints(ib2.end_coord)[1:],
-                          "shape": _ints(cmd.ps.ifm_shapes[1].as_list())[1:]}
-        per_op_count[i] = per_op_count.get(i, 0) + 1
+            s2, e2 = _ints(cmd.ifm2_box.start_coord), _ints(cmd.ifm2_box.end_coord)
+            ev["b2"] = [[s2[1], e2[1]], [s2[2], e2[2]], [s2[3], e2[3]]]
         events.append(ev)
         seq += 1
-    events.append({"t": t, "e": "End", "count": [per_op_count.get(i, 0) for i in range(b["n"])]})
+    events.append({"t": t, "e": "End"})
     return events
 
 
-def _axis(m, ax, k, d, s, ep, ro, rs, wo, a, b, c, e_, pb, pa):
+def _axis(m, ax, k, d, s, ep, ro, rs, wo):
     return {"I": m["ifm_t"][ax], "ro": ro[ax], "rl": rs[ax], "wo": wo[ax], "O": m["wr"][ax], "OT": m["ot"][ax],
-            "k": k, "d": d, "s": s, "ep": [ep[0], ep[1]], "a": a, "b": b, "c": c, "e": e_, "pb": pb, "pa": pa}
+            "k": k, "d": d, "s": s, "ep": [ep[0], ep[1]]}
 
 
 def _tiles(fm, tens):
@@ -380,10 +376,3 @@ def _tiles(fm, tens):
     a2 = int(fm.tiles.addresses[2])
     s2 = (a2 - int(tens.address)) // sy if a2 != 0 else -1
     return [a0 // sy, int(fm.tiles.height_0), s2]
-
-
-def direct_axis_record(case):
-    """Light path for the big lattice (H axis of one operator, no scheduler objects): REAL calc_padding_and_skirt,
-    REAL Box.transform_with_strides_and_skirt, REAL create_padding with stand-ins for cmd/primary_op.
-    case: dict(id, cls, I, W, k, d, s, pad, ep(before, after), h, ro, rl, wo, OT) -> events like run_case."""
-    raise NotImplementedError
